@@ -157,8 +157,7 @@ impl ParsedPacket {
         rflags &= !0x7800; // mask opcode
         rflags &= !0x000f; // mask rcode
         let mut v = BigEndian::read_u16(&self.packet()[DNS_FLAGS_OFFSET..]);
-        v &= !0x7800;
-        v &= !0x000f;
+        v &= 0x7800 | 0x000f; // keep opcode and rcode, replace everything else
         v |= rflags;
         BigEndian::write_u16(&mut self.packet_mut()[DNS_FLAGS_OFFSET..], v);
     }
